@@ -9,6 +9,8 @@ use crate::choice::Ch;
 use crate::exec::*;
 use crate::flat::*;
 use crate::runner::*;
+use crate::gen::approx_extent;
+use crate::world::Obst;
 
 const TREE_PLANNERS: [PlannerTag; 3] = [PlannerTag::RRT, PlannerTag::RRTConnect, PlannerTag::RRTStar];
 
@@ -87,6 +89,12 @@ fn gen_stepwise(ch: &mut Ch, planners: &[PlannerTag], tier: Tier, big_radius: bo
     let mut ops = vec![Op::Setup(0)];
     for _ in 0..n {
         ops.push(Op::Solve { budget: 1 });
+    }
+    // a quarter of the runs re-tune the planner once or twice on the way
+    if ch.prob(0.25) {
+        for _ in 0..1 + ch.below(2) {
+            insert_retune(ch, &mut ops, c.step, c.goal_bias, c.radius);
+        }
     }
     c.ops = ops;
     // make success rarer so that the tree keeps growing
@@ -172,24 +180,113 @@ impl Prop for C15Chunked {
     }
 }
 
+/// Planner objects re-used for a second problem: re-setup with another start / goal, possibly an
+/// invalid start and a stricter checker.
+pub struct C15ReSetup;
+impl Prop for C15ReSetup {
+    type Case = PlanCase;
+    const ID: &'static str = "C15";
+    const PART: &'static str = "re-setup-histories";
+    const RULE: &'static str = "planner cases with two problems run as setup(P1), solve, [solve,] setup(P2), solve, [solve]: P2 has its own start and goal, in 30% of the cases a start the checker rejects (marginally inside an obstacle), in 30% a stricter checker (the base world plus one obstacle). The structural invariant (indices, single root, acyclic, root = the current problem's start, every node valid in the world in effect, a rejected start never grown from, path = parent walk, RRT* cost >= branch length, edges within the extension limit) is checked on the snapshot after every call. Non-trivial = a tree of >= 4 nodes with a non-chain edge.";
+    const HANG_IS_VIOLATION: bool = true;
+    fn random_cases(tier: Tier) -> usize {
+        tier.pick(5_000, 30_000)
+    }
+    fn gen(ch: &mut Ch, _tier: Tier) -> PlanCase {
+        let prof = Profile {
+            planners: TREE_PLANNERS.to_vec(),
+            max_obst: 3,
+            big_radius: true,
+            histories: true,
+            p_world2: 0.3,
+            p_goal_blocked: 0.1,
+            budget_scale: 0.4,
+            ..Default::default()
+        };
+        let mut c = gen_plan_case(ch, &prof);
+        let b = |ch: &mut Ch| default_budget(ch, c.planner, 0.4);
+        let mut ops = vec![Op::Setup(0), Op::Solve { budget: b(ch) }];
+        if ch.prob(0.3) {
+            ops.push(Op::Solve { budget: b(ch) });
+        }
+        ops.push(Op::Setup(1));
+        ops.push(Op::Solve { budget: b(ch) });
+        if ch.prob(0.4) {
+            ops.push(Op::Solve { budget: b(ch) });
+        }
+        c.ops = ops;
+        if ch.prob(0.3) {
+            // a start for P2 that the checker of P2's world rejects: the centre of a small ball
+            // obstacle added to both worlds, unless that would invalidate P1's start
+            let s2 = c.problems[1].start.clone();
+            let r = 1e-3 * approx_extent(&c.space).max(1e-9);
+            let o = Obst::Ball { c: s2, r };
+            if !o.hits(&c.space, &c.problems[0].start) {
+                c.world.obst.push(o.clone());
+                if let Some(w2) = c.world2.as_mut() {
+                    w2.obst.push(o);
+                }
+            }
+        }
+        c.query_cap = usize::MAX;
+        c
+    }
+    fn check(case: &PlanCase, ctx: &mut Ctx) {
+        match run_case_dyn(case) {
+            Err(e) => ctx.discard(format!("unbuildable: {e}")),
+            Ok(trace) => {
+                common_labels(case, &trace, ctx);
+                structural_only(case, &trace, ctx);
+            }
+        }
+    }
+}
+
 fn structural_k<K: Kind>(case: &PlanCase, trace: &Trace, ctx: &mut Ctx) {
     let Some(ks) = KSpace::<K>::new(&case.space) else { return };
     let empty = super::paths::DecodedLog::<K> { states: vec![], ok: vec![] };
-    let prob = &case.problems[0];
-    for st in &trace.steps {
+    // problem and world in effect at each step (a setup step: the ones it installs)
+    let mut at = vec![(None::<usize>, 0usize); trace.steps.len()];
+    walk_model(case, trace, |i, m, st| {
+        at[i] = match st.op {
+            Op::Setup(p) => {
+                let p = p % case.problems.len();
+                (Some(p), case.world_index_for(p))
+            }
+            _ => (m.problem, m.world),
+        };
+    });
+    let mut solved = false;
+    for (si, st) in trace.steps.iter().enumerate() {
         if matches!(st.res, Res::Panic { .. }) {
             ctx.panicked = true;
             return;
         }
+        let (Some(pi), wi) = at[si] else { continue };
+        let prob = &case.problems[pi];
+        let world = case.world_by_index(wi);
         let trees: Vec<&Vec<NodeF>> = match &st.snap {
             Snap::Tree(t) => vec![t],
             Snap::Two(a, b) => vec![a, b],
             _ => vec![],
         };
-        let solved = matches!(st.op, Op::Solve { .. } | Op::SolveTimed { .. });
+        match st.op {
+            Op::Setup(_) => solved = false,
+            // a call that ended at the start-state check never looked at the goal-tree root
+            Op::Solve { .. } | Op::SolveTimed { .. } => {
+                if !matches!(&st.res, Res::Err(e) if e == "InvalidStartState" || e == "PlannerUninitialised") {
+                    solved = true;
+                }
+            }
+            _ => {}
+        }
+        let no_start = case.empty_starts || prob.no_start;
         for (ti, t) in trees.iter().enumerate() {
-            let root = if ti == 0 { Some(&prob.start[..]) } else { None };
-            tree_invariant(&ks, case, t, if ti == 0 { "start-tree" } else { "goal-tree" }, root, &empty, (0, 0), trace.lvs, &|_| false, ti == 0 || solved, ctx);
+            if t.is_empty() {
+                continue;
+            }
+            let root = if ti == 0 && !no_start { Some(&prob.start[..]) } else { None };
+            tree_invariant(&ks, case, t, if ti == 0 { "start-tree" } else { "goal-tree" }, root, &empty, (0, 0), trace.lvs, super::paths::edge_limit_upto(case, trace, si), world, &|_| false, ti == 0 || solved, ctx);
         }
         if let (Res::Path(p), Snap::Tree(t)) = (&st.res, &st.snap) {
             // path = parent walk from the last node
@@ -213,6 +310,9 @@ fn structural_k<K: Kind>(case: &PlanCase, trace: &Trace, ctx: &mut Ctx) {
         }
         if matches!(st.op, Op::SolveTimed { .. }) {
             ctx.label(format!("timed-call:{}", st.res.tag()));
+        }
+        if pi == 1 && matches!(st.op, Op::Solve { .. }) {
+            ctx.label(format!("solve-after-re-setup:{}", st.res.tag()));
         }
     }
 }
@@ -382,6 +482,7 @@ impl C16GoalBias {
             empty_starts: false,
             query_cap: usize::MAX,
             world2: None,
+            space2: None,
         };
         let t = run_case_dyn(&pc).ok()?;
         let st = t.steps.last()?;
